@@ -543,7 +543,7 @@ func TestVerifStorageBroker(t *testing.T) {
 			runOne(cs, "corpus")
 		}
 		r := vNewRand(vSeed()*7919 + 17)
-		n := vN(80, 500)
+		n := vN(80, 800)
 		for i := 0; i < n; i++ {
 			runOne(sbGen(r.Fork(), 28), "gen")
 		}
